@@ -141,6 +141,12 @@ func unmarshal(c *boc.Cell, ptr any) (st string, msg string) {
 	return status(err, p), msg
 }
 
+func dumpDictBits(v reflect.Value) any {
+	tlbx.DictBits = true
+	defer func() { tlbx.DictBits = false }()
+	return tlbx.Dump(v, "")
+}
+
 // PerturbRng, when set, makes RoundTrip move the read cursors of bit strings inside the decoded value before it is
 // encoded again.
 var PerturbRng *rand.Rand
@@ -152,7 +158,10 @@ func RoundTrip(name string, t reflect.Type, v reflect.Value) ev.M {
 	if !tlbx.HasOpaque(a) {
 		m["hasast"] = true
 		m["ast"] = a
-		m["v"] = tlbx.Dump(v, "")
+		// dictionaries as [key bits, value] in ascending key order: the shape the specification's decoder produces
+		dv := dumpDictBits(v)
+		m["v"] = dv
+		m["ds"] = canon(dv)
 	}
 	c, st, msg := marshal(v.Interface())
 	m["enc"] = st
@@ -161,6 +170,9 @@ func RoundTrip(name string, t reflect.Type, v reflect.Value) ev.M {
 		return m
 	}
 	m["tree"] = tlbx.TreeText(c)
+	if m["hasast"] == true {
+		m["tj"] = tlbx.Tree(c) // the same cell as a structure: input of the specification's decoder (TlbDec!Dec)
+	}
 	p := reflect.New(t)
 	st, msg = unmarshal(c, p.Interface())
 	m["dec"] = st
